@@ -49,10 +49,14 @@ def t04_type(run, fx):
     rule = "T04-TYPE"
     run.rule(rule, "GSUB::check_lookup_type is the table {1: Single, 2: Multiple, 3: Alternate, 4: Ligature, 5: Context, 6: ChainContext, "
                    "7: Extension, 8: ReverseChainSingle}; every other number is an error")
+    lookup_type_table(run, fx, rule, "<layout::GSUB as layout::LayoutTableType>::check_lookup_type", GSUB_TYPES, "GSUB")
+
+
+def lookup_type_table(run, fx, rule, path, GSUB_TYPES, table):
     import tableread
-    b = fx.body("<layout::GSUB as layout::LayoutTableType>::check_lookup_type")
+    b = fx.body(path)
     if b is None:
-        return run.anchor_missing(rule, "GSUB::check_lookup_type")
+        return run.anchor_missing(rule, path)
     mt = tableread.match_table(b)
     if mt is None:
         return run.fail(rule, "lookup-type:shape", "check_lookup_type is not a match table", "%s:%s" % (b.file, b.line))
@@ -62,10 +66,10 @@ def t04_type(run, fx):
         if got and got[0] == "Ok" and got[-1] == want:
             run.ok(rule, "lookup type %d -> %s" % (v, want))
         else:
-            run.fail(rule, "lookup-type:%d" % v, "GSUB lookup type %d should be %s, found %s" % (v, want, got or "no arm"), "%s:%s" % (b.file, b.line))
+            run.fail(rule, "lookup-type:%d" % v, "%s lookup type %d should be %s, found %s" % (table, v, want, got or "no arm"), "%s:%s" % (b.file, b.line))
     for v in arms:
         if v not in GSUB_TYPES:
-            run.fail(rule, "lookup-type:%d" % v, "GSUB lookup type %d is not defined by the specification but is accepted" % v, "%s:%s" % (b.file, b.line))
+            run.fail(rule, "lookup-type:%d" % v, "%s lookup type %d is not defined by the specification but is accepted" % (table, v), "%s:%s" % (b.file, b.line))
     on = shape.variant_names(other) if other else []
     if on and on[0] == "Err":
         run.ok(rule, "unknown lookup types are rejected")
@@ -77,17 +81,21 @@ def t04_rd(run, fx):
     rule = "T04-RD"
     run.rule(rule, "read_lookup_gsub: for every SubstLookupType variant the arm builds the SubstLookup variant of the same name from "
                    "read_subtables::<T> with T the subtable type of that lookup kind")
-    bs = [b for b in fx.bodies if b.path.endswith("::read_lookup_gsub") and b.kind != "Closure"]
+    reader_dispatch(run, fx, rule, "::read_lookup_gsub", "layout::SubstLookupType", "layout::SubstLookup", READERS)
+
+
+def reader_dispatch(run, fx, rule, fn_suffix, type_enum, lookup_enum, READERS):
+    bs = [b for b in fx.bodies if b.path.endswith(fn_suffix) and b.kind != "Closure"]
     if len(bs) != 1:
-        return run.anchor_missing(rule, "LookupList::<GSUB>::read_lookup_gsub")
+        return run.anchor_missing(rule, fn_suffix)
     b = bs[0]
-    adt = fx.adt("layout::SubstLookupType")
+    adt = fx.adt(type_enum)
     if adt is None:
-        return run.anchor_missing(rule, "layout::SubstLookupType")
+        return run.anchor_missing(rule, type_enum)
     variants = {v["discr"]: v["name"] for v in adt["variants"]}
-    sw = [(bi, t) for bi, t, pty in shape.discr_switches(b) if shape.strip_ty(pty) == "layout::SubstLookupType"]
+    sw = [(bi, t) for bi, t, pty in shape.discr_switches(b) if shape.strip_ty(pty) == type_enum]
     if len(sw) != 1:
-        return run.fail(rule, "read-dispatch:shape", "expected one switch on SubstLookupType, found %d" % len(sw), "%s:%s" % (b.file, b.line))
+        return run.fail(rule, "read-dispatch:shape", "expected one switch on %s, found %d" % (type_enum, len(sw)), "%s:%s" % (b.file, b.line))
     bi, t = sw[0]
     targets = {v: tgt for v, tgt in t["arms"]}
     all_starts = set(targets.values()) | {t["otherwise"]}
@@ -99,17 +107,17 @@ def t04_rd(run, fx):
         built, readers = [], []
         for x in sorted(region):
             for s in b.stmts(x):
-                if s["k"] == "assign" and s["rv"]["k"] == "agg" and s["rv"].get("adt") == "layout::SubstLookup":
+                if s["k"] == "assign" and s["rv"]["k"] == "agg" and s["rv"].get("adt") == lookup_enum:
                     built.append(s["rv"]["vname"])
             tt = b.term(x)
             if tt["k"] == "call" and callee_is(tt, "::read_subtables"):
                 readers.append((tt["callee"].get("args") or ["?"])[-1])
         want_r = READERS.get(name)
         if built == [name] and readers == [want_r]:
-            run.ok(rule, "%s -> SubstLookup::%s(read_subtables::<%s>)" % (name, name, want_r))
+            run.ok(rule, "%s -> %s::%s(read_subtables::<%s>)" % (name, lookup_enum.split("::")[-1], name, want_r))
         else:
-            run.fail(rule, "read-dispatch:%s" % name, "lookup kind %s builds %s from read_subtables::<%s>; expected SubstLookup::%s from %s" % (
-                name, built, readers, name, want_r), b.loc(t))
+            run.fail(rule, "read-dispatch:%s" % name, "lookup kind %s builds %s from read_subtables::<%s>; expected %s::%s from %s" % (
+                name, built, readers, lookup_enum.split("::")[-1], name, want_r), b.loc(t))
 
 
 def t04_flag(run, fx):
